@@ -244,7 +244,7 @@ func c04Constructed(r *Run) {
 	}
 	exp := c04Expectation(algItem, signerAlg, external)
 	calls := len(spy.Calls)
-	r.Logf("sign: err=%v calls=%d", signErr, calls)
+	r.Logf("sign: err=%s calls=%d", errTag(signErr), calls)
 	r.Check()
 	sigFacts := "/" + target + "/alg=" + algKind + "/label-spelling=" + spell
 	if exp.mustFail {
@@ -391,7 +391,7 @@ func c04VerifyAttempt(r *Run, where string, wireAlg *refcbor.Item, spell string,
 	if wireAlg == nil && len(external) == 0 {
 		exp.mustFail = true
 	}
-	r.Op("VERIFY", "%s verifierAlg=%d external=%s wireAlg=%s -> err=%v calls=%d", where, verAlg, extClass(external), diagOrAbsent(wireAlg), err, calls)
+	r.Op("VERIFY", "%s verifierAlg=%d external=%s wireAlg=%s -> %s calls=%d", where, verAlg, extClass(external), diagOrAbsent(wireAlg), errTag(err), calls)
 	r.Check()
 	sigFacts := "/" + where + "/label-spelling=" + spell
 	if exp.mustFail {
@@ -524,12 +524,12 @@ func c04Failover(r *Run) {
 	var err1 error
 	r.Lib(func() { err1 = m.Sign(ent, external, first) })
 	r.Fired("signer.err")
-	r.Op("SIGN", "first signer %s (alg %d) fails: %v", k1.Name, k1.Alg, err1)
+	r.Op("SIGN", "first signer %s (alg %d) fails: %s", k1.Name, k1.Alg, errTag(err1))
 	second := &SpySigner{Inner: r.signerFor(k2, false), Alg: cose.Algorithm(k2.Alg)}
 	var err2 error
 	r.Lib(func() { err2 = m.Sign(ent, external, second) })
 	r.Fired("failover")
-	r.Op("FAILOVER", "second signer %s (alg %d): %v", k2.Name, k2.Alg, err2)
+	r.Op("FAILOVER", "second signer %s (alg %d): %s", k2.Name, k2.Alg, errTag(err2))
 	if k1.Alg != k2.Alg {
 		r.Probe("failover-alg-differs")
 	}
